@@ -51,7 +51,7 @@ def space(ctx):
             "edge_sets": "all 2^(n*n) masks, kept iff every node reachable from node 0",
             "edge_kinds_for_<=3_nodes": ["absent", "normal", "catch"],
             "successor_insertion_orders": "all, for n <= %d" % (4 if ctx.thorough else 3),
-            "dex_files": D.DEX_FILES}
+            "dex_files": D.dex_files(ctx)}
 
 
 def shards(ctx):
@@ -59,7 +59,7 @@ def shards(ctx):
     s += [("bin", 4, lo, lo + CH4) for lo in range(0, 1 << 16, CH4)]
     s += [("tri", 1, 0, 1), ("tri", 2, 0, 1)] + [("tri", 3, k, 9) for k in range(9)]
     s += [("ord", 2, 0, 16)] + [("ord", 3, lo, lo + 64) for lo in range(0, 512, 64)]
-    for name in D.DEX_FILES:
+    for name in D.dex_files(ctx):
         parts = 4 if name.endswith("classes.dex") else 1
         s += [("dex", name, k, parts) for k in range(parts)]
     if ctx.thorough:
